@@ -316,3 +316,31 @@ Proof.
   - exfalso. pose proof (find_none _ _ F _ Hin) as E. cbn in E.
     assert (existsb (Nat.eqb j) ixs = true); [|congruence]. apply existsb_exists. exists j. split; [exact Hx|apply Nat.eqb_refl].
 Qed.
+
+(* ---- root steps are all sent: none is merged with another (C06) ---- *)
+Lemma imap_set_unique_new i m :
+  (forall k v, In (k, v) m -> exists j, k = KUnique j /\ j < i) ->
+  imap_set i (KUnique i) m = (m ++ [(KUnique i, (List.length m, [i]))], true).
+Proof.
+  intros H. unfold imap_set.
+  destruct (existsb (fun e => key_eqb (fst e) (KUnique i)) m) eqn:E; [|reflexivity].
+  apply existsb_exists in E as ([k v] & Hin & Ek). cbn in Ek. apply key_eqb_eq in Ek. subst k.
+  destruct (H _ _ Hin) as (j & Hj & Hlt). inversion Hj; subst. exfalso. apply (Nat.lt_irrefl j Hlt).
+Qed.
+
+Theorem all_root_requests_are_sent rs : Forall (fun r => er_root_parent r = true) rs ->
+  snd (build rs 0 [] []) = seq 0 (List.length rs).
+Proof.
+  intros Hall.
+  assert (G : forall rs i m sent, Forall (fun r => er_root_parent r = true) rs ->
+            (forall k v, In (k, v) m -> exists j, k = KUnique j /\ j < i) ->
+            snd (build rs i m sent) = sent ++ seq i (List.length rs)).
+  { clear. induction rs as [|r t IH]; intros i m sent Hall Hm; cbn [build List.length seq]; [now rewrite app_nil_r|].
+    inversion Hall as [|? ? Hr Ht]; subst. rewrite (root_requests_unique i r Hr).
+    rewrite (imap_set_unique_new i m Hm). rewrite IH; auto.
+    - now rewrite <- app_assoc.
+    - intros k v Hin. apply in_app_or in Hin as [Hin|[E|[]]].
+      + destruct (Hm k v Hin) as (j & Hj & Hlt). exists j. split; [exact Hj|]. apply Nat.lt_lt_succ_r. exact Hlt.
+      + inversion E; subst. exists i. split; [reflexivity|]. apply Nat.lt_succ_diag_r. }
+  rewrite (G rs 0 [] [] Hall); [reflexivity|]. intros k v [].
+Qed.
